@@ -480,6 +480,9 @@ def tiny_error_programs():
             lets = "".join(f"let p{j} = {j};\n" for j in range(pre))
             # nothing else in the script needs more slots than the failing call: print(e.message) takes two
             out.append((f"tiny:{i}:{pre}", lets + f"try {{ {what}; }} catch e {{ print(e.message); }}\n" + what + ";\n"))
+        # the same on a launched fiber, whose stack is cut to what its function needs
+        out.append((f"tinyfiber:{i}", f"fn w(ch) {{ try {{ {what}; }} catch e {{ ch <- e.message; }} }}\nlet ch = chan(1);\nlaunch w(ch);\nprint(<- ch);\n"))
+        out.append((f"tinymethod:{i}", f"class T {{ m() {{ try {{ {what}; }} catch e {{ return e.message; }} }} }}\nprint(T().m());\n"))
     return out
 
 
@@ -637,6 +640,12 @@ def run(pid, tier, replay=None):
             plain = vlib.run_batch(binary, [{"id": f"t{j}", "files": {"/v/main.lay": src}, "main": "/v/main.lay"} for j, (tid, src) in enumerate(tiny)], per_case_timeout=30)
             dense = vlib.run_batch(binary, [{"id": f"t{j}", "files": {"/v/main.lay": src}, "main": "/v/main.lay", "gc": {"every": 1, "force_full": True}}
                                             for j, (tid, src) in enumerate(tiny)], per_case_timeout=30)
+            # every raiser also as an entry of an interactive session (each entry is a script of its own)
+            sess = [f"{w};" for w in TINY_RAISERS] + ['print("still here");']
+            plain["session"] = vlib.run_batch(binary, [{"id": "session", "repl": sess}], per_case_timeout=60)["session"]
+            dense["session"] = vlib.run_batch(binary, [{"id": "session", "repl": sess, "gc": {"every": 1, "force_full": True}}], per_case_timeout=60)["session"]
+            tiny = tiny + [("tinysession", "\n".join(sess))]
+            plain[f"t{len(tiny) - 1}"], dense[f"t{len(tiny) - 1}"] = plain["session"], dense["session"]
             for j, (tid, src) in enumerate(tiny):
                 a, b_ = plain[f"t{j}"], dense[f"t{j}"]
                 judged += 1
